@@ -454,8 +454,24 @@ def _check_status_init(ctx):
            construct="for operator in pipeline.values: operator_states[operator] = PENDING", detail=d)
 
 
+def check_dag_writers(ctx, num=9):
+    """The iteration order rests on three pieces of structure that add_node keeps consistent with each other (a node without parents is a
+    root; an edge is recorded at both ends): nothing else in the package changes them."""
+    P = ctx.P
+    from ..util import private_closure
+    allowed = {"DAG.__init__", "Node.__init__"} | set(private_closure(P, P.fn(DAG, "DAG.add_node", raw=True)))
+    for attr in ("roots", "children", "parents", "node_lookup"):
+        for w in attr_writes(P, attr):
+            if w.fn.mod.rel != DAG and attr in ("roots", "node_lookup"):
+                continue      # same-named fields of unrelated classes; `children` / `parents` of an operator are the Node fields wherever they are stored to
+            ok = w.fn.qual in allowed and w.fn.mod.rel == DAG
+            ctx.ob(num, "K1", f"the DAG's `{attr}` is changed only by DAG.add_node (and the constructors)", ok, w.fn, w.node,
+                   construct=f"write to .{attr}", detail=f"{w.how} in {w.fn.mod.rel}::{w.fn.qual}")
+
+
 def check_dag(ctx):
     P = ctx.P
+    check_dag_writers(ctx, 9)
     f = P.fn(DAG, "DAGIterator.__next__")
     ctx.touch(f)
     g = cfg_of(f)
